@@ -149,8 +149,9 @@ CLAIMED = {
         'operation and established by compute (one member holding all construction points, empty cache, zero counters, unit-cube restriction exactly when requested, the given generator), hence it holds after any operation order of any length; a successful split yields two clusters of at least n_points_min points that partition the points of the split '
         'member and whose summed volume does not exceed it, for an ARBITRARY responsibility matrix (the GMM is havoc); a refused operation leaves members, points and volumes '
         'unchanged; no numpy operation can raise (length/shape/index obligations).',
-   note=TRUST + 'Member bounds are abstract (compute needs more rows than dimensions, a precondition of Union.compute here; C07). Counting facts of a[idx]=v, bincount and argsort are library axioms. Bounded leg: '
-        'operation words up to length 3/4 on three point sets against the real Union.',
+   note=TRUST + 'Member bounds are abstract (compute needs more rows than dimensions, a precondition of Union.compute here; C07). Counting facts of a[idx]=v, bincount and argsort are library axioms. Floats are reals: "no operation raises" is proved over the reals; a bounded leg '
+        '(both tiers) runs operation words on unions whose log-volumes lie far outside the range of exp(). Bounded leg (thorough): operation words up to length 3/4/5 on nine point sets '
+        'against the real Union.',
    tech='contract-based deductive verification: representation invariant over all exits, z3', ref='7 C13'),
  'C14': dict(
    text='Deductive proof on the resampling block of Sampler.posterior (all statements from `if equal_weight:` to the return, extracted mechanically from the real AST on every run), '
